@@ -10,25 +10,37 @@ accounting of received frames stays balanced so that a later shutdown can comple
 namespace PlumVerif.C09
 open PlumVerif.Pool
 
-/-- the reply the statement demands for a received frame (none for anything that is not a
-program-version / check-device request from the controller); literals of the statement:
-64 → 192, 48 → 176 are connected to the generated frame table in Props/C09.lean -/
-def demanded (cfg : Nat) (f : Frame) : Option Resp :=
+/-- what the statement says about one reply frame: (its kind, its recipient, and whether it is
+a proper reply: sent by the library and — for a device-available response (176) — carrying the
+configured network information, judged with the DECODER of the network structure, not with
+the encoder the machine uses) -/
+def describe (net : NetInfo) (r : Fields) : Nat × Nat × Bool :=
+  (r.kind.toNat, r.rcpt.toNat,
+    r.sender == 86 &&
+      (r.kind == 192 || (r.kind == 176 && Net.decode r.payload == some net)))
+
+/-- the reply the statement demands for a received frame: a program-version request (64) from
+the controller → a program-version response (192) to the requester; a check-device request
+(48) → a device-available response (176) to the requester with the configured network
+information; nothing for anything else -/
+def demanded (f : Frame) : Option (Nat × Nat × Bool) :=
   match f.controller, f.cls with
-  | true, .pvReq => some ⟨.programVersion, f.sender, 0⟩
-  | true, .cdReq => some ⟨.deviceAvailable, f.sender, cfg⟩
+  | true, .pvReq => some (192, f.sender.toNat, true)
+  | true, .cdReq => some (176, f.sender.toNat, true)
   | _, _ => none
 
 structure Obs where
   delivered : List Nat     -- ids of the frames whose data reached their device, in order
-  responses : List Resp    -- automatic replies written to the transport, in order
+  responses : List Fields  -- automatic replies written to the transport, in order
   unfinished : Nat         -- read queue's unfinished-task count at the end
   alive : Nat              -- consumer tasks still running at the end
   shutdown : Bool          -- a subsequent `shutdown()` completed
 deriving Repr, DecidableEq
 
-/-- a model snapshot as an observation: `shutdown()` first awaits `Queue.join()`, which
-returns iff the unfinished count is 0 -/
+/-- a model snapshot as an observation.  The pool machine does not model `shutdown()`; what it
+does know is whether the FIRST thing shutdown does — `await self._queues.join()` on the read
+queue — returns, which is iff the unfinished count is 0 (the write queue's side is
+`C09Producer.write_balance`, see `C09Producer.shutdown_can_complete`) -/
 def Obs.ofSnap (o : Snap) : Obs :=
   { delivered := o.delivered, responses := o.responses, unfinished := o.unfinished, alive := o.alive,
     shutdown := o.unfinished == 0 }
@@ -43,14 +55,14 @@ def onlyValid (frames : List Frame) (o : Obs) : Bool :=
 
 /-- exactly one reply of the matching kind per controller request, addressed to the requester,
 the device-available one carrying the configured network information; no other replies -/
-def answered (cfg : Nat) (frames : List Frame) (o : Obs) : Bool :=
-  o.responses.isPerm (frames.filterMap (demanded cfg))
+def answered (net : NetInfo) (frames : List Frame) (o : Obs) : Bool :=
+  (o.responses.map (describe net)).isPerm (frames.filterMap demanded)
 
 /-- the accounting is balanced, no consumer was lost, shutdown can and does complete -/
 def balanced (n : Nat) (o : Obs) : Bool :=
   o.unfinished == 0 && o.alive == n && o.shutdown
 
-def spec (n cfg : Nat) (frames : List Frame) (o : Obs) : Bool :=
-  deliveredOnce frames o && onlyValid frames o && answered cfg frames o && balanced n o
+def spec (n : Nat) (net : NetInfo) (frames : List Frame) (o : Obs) : Bool :=
+  deliveredOnce frames o && onlyValid frames o && answered net frames o && balanced n o
 
 end PlumVerif.C09
